@@ -20,7 +20,7 @@ import (
 
 func init() { register("C10", runC10) }
 
-var c10BaseOps = []string{"pub0", "pub1", "pub2", "sub", "unsub", "ping", "handle", "stats", "done", "err", "close", "seterr"}
+var c10BaseOps = []string{"pub0", "pub1", "pub2", "sub", "unsub", "ping", "handle", "stats", "done", "err", "close", "seterr", "pub1x", "pub2x", "subx"}
 var c10RetryOps = []string{"pub0", "pub1", "pub2", "sub", "unsub", "ping", "handle", "stats", "client"}
 
 // c10AutoPeer answers every request at once and pushes inbound QoS 1 / QoS 2 traffic.
@@ -35,6 +35,9 @@ func c10AutoPeer(s *env.Script, push bool) {
 				c.Send(env.EncPublish("in/2", []byte("i2"), 2, 502, false, false), "push")
 			}
 		case env.PUBLISH:
+			if strings.HasPrefix(string(p.Payload), "noack") {
+				return // this request is never answered: its caller gives up on its deadline
+			}
 			if p.QoS == 1 {
 				c.Send(env.EncAck(env.PUBACK, p.ID), "")
 			} else if p.QoS == 2 {
@@ -45,6 +48,9 @@ func c10AutoPeer(s *env.Script, push bool) {
 		case env.PUBREC:
 			c.Send(env.EncAck(env.PUBREL, p.ID), "")
 		case env.SUBSCRIBE:
+			if strings.HasPrefix(p.Filters[0], "noack") {
+				return
+			}
 			c.Send(env.EncSubAck(p.ID, make([]byte, len(p.Filters))), "")
 		case env.UNSUBSCRIBE:
 			c.Send(env.EncAck(env.UNSUBACK, p.ID), "")
@@ -93,6 +99,18 @@ func c10BaseOp(cli *mqtt.BaseClient, op string, i int) {
 	switch op {
 	case "pub0", "pub1", "pub2":
 		cli.Publish(ctx, &mqtt.Message{Topic: "t", QoS: mqtt.QoS(op[3] - '0'), Payload: []byte(tag)})
+	case "pub1x", "pub2x":
+		// never acknowledged: returns when its own short deadline expires, while the reader keeps
+		// dispatching the acknowledgements of the other caller and of a follow-up request
+		sctx, scancel := vctx.WithTimeout(vctx.Background(), time.Second)
+		cli.Publish(sctx, &mqtt.Message{Topic: "t", QoS: mqtt.QoS(op[3] - '0'), Payload: []byte("noack-" + tag)})
+		scancel()
+		cli.Publish(ctx, &mqtt.Message{Topic: "t", QoS: mqtt.QoS1, Payload: []byte("after-" + tag)})
+	case "subx":
+		sctx, scancel := vctx.WithTimeout(vctx.Background(), time.Second)
+		cli.Subscribe(sctx, mqtt.Subscription{Topic: "noack-" + tag, QoS: mqtt.QoS1})
+		scancel()
+		cli.Subscribe(ctx, mqtt.Subscription{Topic: "after-" + tag, QoS: mqtt.QoS1})
 	case "sub":
 		cli.Subscribe(ctx, mqtt.Subscription{Topic: tag, QoS: mqtt.QoS1})
 	case "unsub":
